@@ -79,12 +79,13 @@ def gen_case(rng, big=False):
         if rng.random() < 0.12:                       # listed twice
             g = rng.choice(files)
             (g["dele"] if rng.random() < 0.5 else g["packs"]).append(p)
-    present = sorted({b[0] for p in packs for b in p["blobs"]})
-    used = [i for i in present if rng.random() < 0.5]
+    present = sorted({(b[1], b[0]) for p in packs for b in p["blobs"]})
+    # referenced (type,id) pairs; when an id occurs under both types usually both are referenced
+    used_ids = {i for (_, i) in present if rng.random() < 0.5}
+    used_typed = [x for x in present if x[1] in used_ids and rng.random() < 0.9]
     if rng.random() < 0.04:
-        used.append(K + 50)                           # not in any index file
-    # typed view of the same used set: all listed (type,id) pairs of a used id are referenced
-    used_typed = sorted({(b[1], b[0]) for p in packs for b in p["blobs"] if b[0] in used})
+        used_typed.append((rng.randint(0, 1), K + 50))           # not in any index file
+    used = sorted({i for (_, i) in used_typed})
     existing = []
     for p in packs:
         r = rng.random()
@@ -95,7 +96,8 @@ def gen_case(rng, big=False):
     t = [now, keep_pack, keep_delete, opts["cacheable_only"], opts["unc"], opts["all"], opts["no_resize"], opts["instant"],
          mu[0], mu[1], mr[0], mr[1]]
     for s in sizers: t += list(s)
-    t += [len(used)] + used
+    t += [len(used_typed)]
+    for x in used_typed: t += list(x)
     t += [len(existing)]
     for e in existing: t += list(e)
     t += [len(files)]
@@ -179,14 +181,16 @@ def gen_history(rng, maxsteps, with_collision=False):
     seed = rng.randint(1, 2 ** 31)
     pack_size = rng.choice([600, 2000, 4096, 20000])
     chunk = rng.choice([64, 256, 512])
-    ops, nsn, nforgot, safe_forgot = [], 0, 0, 0
+    ops, nsn, nforgot, safe_forgot, coll = [], 0, 0, 0, 0
     n = rng.randint(3, maxsteps)
     while len(ops) < n:
         r = rng.random()
         if nsn == 0 or r < 0.35:
-            if with_collision and rng.random() < 0.3: ops.append([3])
-            else: ops.append([0, rng.randint(1, 2 ** 31), rng.randint(0, 5)])
-            nsn += 1
+            if with_collision and coll == 0 and rng.random() < 0.5:
+                # tree blob X and data blob X are introduced by two DIFFERENT backup runs (same run: C01/C07 finding)
+                ops.append([5]); ops.append([6]); nsn += 2; coll = 1
+            else:
+                ops.append([0, rng.randint(1, 2 ** 31), rng.randint(0, 5)]); nsn += 1
         elif r < 0.55:
             mask = rng.randint(0, 2 ** nsn - 1)
             k = bin(mask).count("1")
@@ -204,7 +208,9 @@ def gen_history(rng, maxsteps, with_collision=False):
     return " ".join(map(str, toks))
 
 
-COLLISION_REPLAY = "1 4096 512 3 0 5 0 3 2 1 0 0 0 0 0 0 1 0 0 0 0 0"
+# backup; backup with an empty dir (tree blob X); backup with a file whose bytes are the serialised empty
+# tree (data blob X); prune(instant_delete, max_unused 0%).  Failed on the unrepaired tree (DESIGN 7 row 7).
+COLLISION_REPLAY = "1 4096 512 4 0 5 0 5 6 2 1 0 0 0 0 0 0 1 0 0 0 0 0"
 
 
 def run(ctx):
@@ -216,10 +222,12 @@ def run(ctx):
     if extract_fail:
         r["ok"] = False
         r["failures"].append("fact extraction from prune.rs failed: " + extract_fail)
+    cov["typed_keys_in_source"] = bool(meta and meta.get("typed_keys"))
     cov["trusted_base"] += ["props/C02/extract.py (translator of the decide_packs match, the prune_repository to_do match, check_existing_packs and filter_index_files predicates into Extracted.v)",
                             "hook crates/core/src/verif_hooks/c02_planner.rs (calls the planner steps in the order of PrunePlan::from_prune_options with a supplied clock)"]
     ctx.assumptions += [
-        "blob identity in the theorems is UNTYPED (what PrunePlan.used_ids implements); the property's (type,id) reading is refuted by prune_typed_collision_refuted and recorded as an open known finding",
+        "blob identity in the theorems is the key the planner uses (b_key, regenerated from the source): (type, id) since the fix commit; against an untyped key the theorems prune_keeps_used_typed / planner_key_is_typed no longer check and the collision history fails on the real code",
+        "packs are type-homogeneous (the repacker writes every blob under the type of the source PACK; check verifies uniform types per pack)",
         "the index tells the truth about pack contents (C08/C17): blob content is modelled as a function of (pack id, index entry)",
         "the repackers deliver every blob they are handed into some freshly named pack that is then indexed (packer_ok: hypothesis of the theorems, universally quantified); pack ids of new packs do not collide with existing packs",
         "decide_repack is covered by the theorems as an ARBITRARY assignment of Keep/Repack to the repack candidates; its limits/ordering/resize logic is modelled executably and validated by the correspondence only",
@@ -303,9 +311,14 @@ def run(ctx):
         rp = json.load(open(ctx.replay))
         if "history" in rp.get("witness", {}): hl = [rp["witness"]["history"]]
     e2e_out = run_lines(e2e, hl, "e2e", timeout=3400)
-    e2e_fail, e2e_steps = [], 0
+    e2e_fail, e2e_steps, backup_side = [], 0, 0
     for h, o in zip(hl, e2e_out):
         f = dict(x.split("=", 1) for x in o.split()[1:] if "=" in x)
+        if o.startswith("FAIL") and f.get("op") in ("0", "3", "5", "6") and f.get("lost_collide") == "1":
+            # a BACKUP run that stores a tree blob and a data blob of equal id in one run drops one of them
+            # (untyped Indexer.indexed, DESIGN 7 row 6: C01/C07) - not a forget/prune loss
+            backup_side += 1
+            continue
         if o.startswith("ok"):
             e2e_steps += int(f.get("steps", 0))
             for k in ("prunes", "packs_removed", "recovered", "repacked"):
@@ -316,7 +329,7 @@ def run(ctx):
                 "rule": "planner cases = 1-4 index files x up to 12 packs (plus packs holding 254-300 copies of one blob) over a small blob universe: duplicates across and inside packs, packs listed twice / both marked and unmarked, marked packs at mark_time+keep_delete in {now-1,now,now+1}, pack times at the keep_pack boundary, missing time, partially used / unused / unreferenced / missing / wrong-size packs, every option; non-trivial = some used id and some pack not simply kept; distinct by case text.  e2e = histories of <= %d steps of {backup of a mutated source, forget subset, resurrect+prune, prune(random options)} with pack sizes 600-20000 and 64-512 byte chunks" % maxsteps,
                 "samples": samples, "distribution": hist,
                 "traces_validated_against_impl": len(cases) + len(hl), "e2e_histories": len(hl), "e2e_steps_verified": e2e_steps,
-                "e2e_failures": len(e2e_fail), "disagreements_checked": len(mism) + len(typed_viol) + len(e2e_fail)})
+                "e2e_failures": len(e2e_fail), "e2e_backup_side_collisions_skipped": backup_side, "disagreements_checked": len(mism) + len(typed_viol) + len(e2e_fail)})
     # 6. decide
     for h, o, f in e2e_fail[:20]:
         sig = SIG_COLLISION if f.get("lost_collide") == "1" else None
